@@ -181,7 +181,8 @@ def rule_f(ctx, R):
         return ctx.lost("C17-f", str(e))
     fl = Flow(f, R, reader_adt=rd["adt"], read_fn=read, follow_control=True)
     d = fl.deps_of(s)
-    aggs = list(pat.aggregates(s, "TropicalSampleResult"))
+    from .common import built_structs
+    aggs = list(built_structs(f, R, s, "TropicalSampleResult"))
     if len(aggs) != 1:
         return ctx.lost("C17-f", "TropicalSampleResult aggregate in sample (found %d)" % len(aggs), s.path)
     bi, si, st = aggs[0]
